@@ -77,7 +77,33 @@ class C14(LineCheck):
                                  san_flags=["-fsanitize=thread", "-fno-omit-frame-pointer"])
         self.covdir = os.path.join(ctx.work, "cov")
         os.makedirs(self.covdir, exist_ok=True)
-        return ok, out + out2
+        if not ok:
+            return ok, out + out2
+        # independent iv_inotify instances in different loop threads on the real kernel
+        ok, out3 = vlib.cc_build(d, "tsan_inotify", ["tsan_inotify.c"], vlib.LIB_SRCS,
+                                 san_flags=["-fsanitize=thread", "-fno-omit-frame-pointer"])
+        return ok, out + out2 + out3
+
+    def run_inotify(self, seed):
+        import subprocess, re
+        exe = os.path.join(self.d, "tsan_inotify")
+        env = dict(os.environ, TSAN_OPTIONS="exitcode=66 halt_on_error=0")
+        try:
+            p = subprocess.run([exe, str(seed)], stdout=subprocess.PIPE, stderr=subprocess.PIPE, text=True, errors="replace",
+                               env=env, timeout=90)
+            out, err, rc = p.stdout, p.stderr, p.returncode
+        except subprocess.TimeoutExpired:
+            out, err, rc = "", "[timeout]", 124
+        races = []
+        for blk in err.split("=================="):
+            if "WARNING: ThreadSanitizer: data race" in blk:
+                glob = re.search(r"Location is global '([^']+)'", blk)
+                name = glob.group(1) if glob else ""
+                if not (name and any(re.search(e, name) for e in tsanrun.EXEMPT)):
+                    races.append(blk.strip()[:3000])
+        m = re.search(r"DONE events=(\d+) foreign=(\d+)", out)
+        return {"case": "INOTIFY %d" % seed, "races": races, "complete": m is not None, "rc": rc, "err": err[-400:],
+                "events": int(m.group(1)) if m else 0, "foreign": int(m.group(2)) if m else 0, "skip": "SKIP" in out}
 
     def run_stress(self, seed):
         import subprocess, re
@@ -182,6 +208,23 @@ class C14(LineCheck):
             for f in os.listdir(covdir):
                 for fn in tsanrun.read_cov(os.path.join(covdir, f), tabs if f.startswith("stress_") else tabf):
                     self.fn_runs[fn] = self.fn_runs.get(fn, 0) + 1
+        # independent inotify instances in different threads
+        iseeds = [ctx.seed * 100 + k for k in range(4 if ctx.tier == "quick" else 24)]
+        with ThreadPoolExecutor(max_workers=4) as ex:
+            ires_ = list(ex.map(self.run_inotify, iseeds))
+        self.inotify_runs = len(ires_)
+        self.inotify_events = sum(r["events"] for r in ires_)
+        for r in ires_:
+            cases.append(r["case"])
+            idx = len(cases) - 1
+            if r["races"]:
+                crashes.append((idx, "ThreadSanitizer: data race (iv_inotify instances in different threads)\n" + r["races"][0]))
+            elif r["foreign"]:
+                crashes.append((idx, "a watch received %d events that another thread's instance read (rc=%s)" % (r["foreign"], r["rc"])))
+            elif not r["complete"]:
+                crashes.append((idx, "inotify thread program did not finish (rc=%s): %s" % (r["rc"], r["err"])))
+            elif not r["skip"]:
+                nontriv.add(hashlib.sha1(r["case"].encode()).hexdigest())
         for r in sres:
             cases.append(r["case"])
             idx = len(cases) - 1
@@ -191,7 +234,7 @@ class C14(LineCheck):
                 crashes.append((idx, "wait/signal stress did not finish (rc=%s): %s" % (r["rc"], r["err"])))
             else:
                 nontriv.add(hashlib.sha1(r["case"].encode()).hexdigest())
-        return {"n": len(jobs) + len(sres), "div": [], "crashes": crashes, "monfail": [], "nontrivial": len(nontriv),
+        return {"n": len(jobs) + len(sres) + len(ires_), "div": [], "crashes": crashes, "monfail": [], "nontrivial": len(nontriv),
                 "mres": [("", None)] * len(cases), "ires": [("", None)] * len(cases), "mon": None}
 
     def describe(self, case):
@@ -230,6 +273,10 @@ class C14(LineCheck):
         if not ok:
             print(out)
             return 2
+        if case.startswith("INOTIFY "):
+            r = self.run_inotify(int(case.split()[1]))
+            print(r["races"][0] if r["races"] else "no race reported; complete=%s foreign=%s" % (r["complete"], r["foreign"]))
+            return 1 if (r["races"] or r["foreign"] or not r["complete"]) else 0
         if case.startswith("STRESS "):
             r = self.run_stress(int(case.split()[1]))
             print(r["races"][0] if r["races"] else "no race reported; complete=%s" % r["complete"])
